@@ -60,7 +60,7 @@ def real_jobs(tier):
            E(1, 1, 2, 8, 2, explicit=1, tag="Ereal")]
     out += [W(1, 2, 1, 0, symlines=1, tag="Wreal"), W(1, 1, 2, 1 + 6 * 2, tag="Wreal"), W(1, 2, 1, 3, tag="Wreal"), W(1, 2, 2, 0 + 6 * 5, tag="Wreal")]
     if tier != "quick":
-        out += [E(1, 1, 3, 2 + 16, 3, tag="Ereal"), E(1, 1, 2, 8, 3, symlines=1, tag="Ereal"), W(2, 2, 3, 1 + 6 * 2, tag="Wreal")]
+        out += [E(1, 1, 2, 8, 3, tag="Ereal", gkeys=1), E(1, 1, 3, 2 + 16, 2, symlines=1, tag="Ereal"), W(1, 2, 3, 1 + 6 * 2, tag="Wreal")]
     return out
 
 PROP = {
